@@ -1150,6 +1150,25 @@ def stream_hc_ext(ctx):
             st.violate('hermitian_conjugated(matrix) is not the conjugate transpose', case, Hd.tolist())
         if scipy.sparse.issparse(M) != scipy.sparse.issparse(H):
             st.violate('hermitian_conjugated changed sparse <-> dense', case, type(H).__name__)
+        # no shared memory with the argument (every dtype, C and Fortran order, sparse data arrays too)
+        hm = H.data if scipy.sparse.issparse(H) else H
+        mm = M.data if scipy.sparse.issparse(M) else M
+        if isinstance(hm, numpy.ndarray) and isinstance(mm, numpy.ndarray) and hm.size and numpy.shares_memory(hm, mm):
+            st.violate('hc-aliases-argument: hermitian_conjugated(matrix) shares memory with its argument', case,
+                       {'dtype': dt, 'format': fmt})
+        else:
+            try:
+                if scipy.sparse.issparse(H):
+                    H.data *= 3
+                else:
+                    H += 1
+            except Exception:
+                pass
+            Md2 = M.toarray() if scipy.sparse.issparse(M) else numpy.asarray(M)
+            kindc, H2 = safe(of.hermitian_conjugated, M)
+            H2d = H2.toarray() if kindc == 'ok' and scipy.sparse.issparse(H2) else (numpy.asarray(H2) if kindc == 'ok' else None)
+            if not numpy.array_equal(Md2, A) or kindc == 'err' or not numpy.array_equal(H2d, numpy.conjugate(A.T)):
+                st.violate('editing the result of hermitian_conjugated(matrix) changed the argument / the second call', case, None)
     B.flush()
 
     # symbolic operators: numpy scalar coefficients, small bands, purely imaginary, large mode indices
@@ -1433,9 +1452,6 @@ def classify(v):
     """F07: trivially_double_commutes_dual_basis answers True although [a,[b,c]] != 0, for b a one-mode number
     operator p^ p and c a hopping term acting on p (the rule `sum(1 for i in modes_touched_b if i in
     modes_touched_c) > 1` counts the repeated mode of b twice)."""
-    if v.get('what', '').startswith('hc-aliases-argument'):
-        # F07b: only real-dtype tensors (ndarray.conj() of a real array returns the array itself)
-        return 'F07b' if (v.get('detail') or {}).get('real_dtype') else None
     if not v.get('what', '').startswith('tdc-dual-wrong-true'):
         return None
     t = _terms_of(v)
@@ -1447,14 +1463,6 @@ def classify(v):
 
 def probe_known(ctx, k):
     of = ctx.of
-    if k.get('id') == 'F07b':
-        import numpy
-        try:
-            op = of.InteractionOperator(0.0, numpy.eye(2), numpy.zeros((2, 2, 2, 2)))
-            h = of.hermitian_conjugated(op)
-            return bool(numpy.shares_memory(h.one_body_tensor, op.one_body_tensor))
-        except Exception:
-            return False
     if k.get('id') != 'F07':
         return False
     F = of.FermionOperator
